@@ -6,11 +6,20 @@ es = json.load(open(os.path.join(VERIF, "known_findings.json")))
 print("**Repaired in /repo (`fix:` commits; a fixed entry suppresses nothing — the reversal of every one is a seed in `seeded/rev-*`):**\n")
 print("| property | commit | what failed |")
 print("|---|---|---|")
-seen = set()
+groups, order = {}, []
 for e in es:
     if e["status"] == "fixed":
-        w = e["what"].replace("|", "\\|")
-        print("| %s | %s | %s |" % (e["property"], e.get("commit", ""), w))
+        g = (e["property"], e.get("commit", ""))
+        if g not in groups:
+            groups[g] = []
+            order.append(g)
+        groups[g].append(e)
+for g in order:
+    ents = groups[g]
+    w = ents[0]["what"].replace("|", "\\|")[:600]
+    if len(ents) > 1:
+        w += " — %d keys: %s" % (len(ents), ", ".join("`%s`" % e["key"] for e in ents[:12])) + (" …" if len(ents) > 12 else "")
+    print("| %s | %s | %s |" % (g[0], g[1], w))
 print("\n**Known findings (genuine contradictions of a property on the unchanged tree, recorded rather than repaired; each check prints one `KNOWN-FINDING` line per key and exits 0):**\n")
 print("| property | key | what fails, on which input |")
 print("|---|---|---|")
